@@ -68,7 +68,27 @@ fn spec(cfg: Config, depth: usize, devs: usize) -> SeqSpec {
     let goal = Arc::new(|e: &Exec| {
         e.abs.iter().all(|a| matches!(a.phase, APhase::T | APhase::S)) && e.steps.iter().any(|s| matches!(s.op, Op::TRead { .. } | Op::SRead { .. }) && s.real.is_ok())
     });
-    SeqSpec { cfg, prefix: vec![], max_depth: depth, max_devs: devs, alphabet, judge: judge_cats(&CATS), goal }
+    SeqSpec { cfg, prefix: vec![], max_depth: depth, max_devs: devs, alphabet, judge: std::sync::Arc::new(judge), goal }
+}
+
+/// The property names the *state* errors; the error class of other failures (sizes, authentication) is
+/// not this property's business.
+fn judge(e: &Exec) -> Vec<(String, String)> {
+    use crate::exec::{EClass, Expect};
+    let state_err = |c: &EClass| matches!(c, EClass::NotTurnToWrite | EClass::NotTurnToRead | EClass::AlreadyFinished | EClass::NotFinished | EClass::OneWay);
+    crate::sess::filter(e, &CATS)
+        .into_iter()
+        .filter(|m| {
+            if m.cat != Cat::WrongErrClass {
+                return true;
+            }
+            match e.steps.get(m.step).map(|s| &s.expect) {
+                Some(Expect::Err(c)) | Some(Expect::Either(_, c)) => c.iter().any(state_err),
+                _ => false,
+            }
+        })
+        .map(|m| (crate::sess::signature(e, m), format!("{}: {}", e.cfg.name, m.detail)))
+        .collect()
 }
 
 pub fn protos() -> Vec<Proto> {
@@ -111,5 +131,10 @@ pub fn run(tier: Tier) -> i32 {
 }
 
 pub fn replay(case: &serde_json::Value) -> Result<(), String> {
-    replay_cats(case, &CATS)
+    let (cfg, ops) = crate::sess::case_from_json(case).ok_or("bad case")?;
+    let e = crate::sess::run(&cfg, &ops);
+    match judge(&e).first() {
+        Some((s, d)) => Err(format!("{s}: {d}\n{}", crate::sess::describe_steps(&e).join("\n"))),
+        None => Ok(()),
+    }
 }
